@@ -106,15 +106,17 @@ func (m *pathParamMatcher) Matches(request *heimdall.Request, keys, values []str
 	if len(request.URL.RawPath) != 0 {
 		switch m.slashHandling {
 		case config.EncodedSlashesOff:
-			if strings.Contains(request.URL.RawPath, "%2F") {
+			if strings.Contains(request.URL.RawPath, "%2F") || strings.Contains(request.URL.RawPath, "%2f") {
 				return errorchain.NewWithMessage(ErrRequestPathMismatch,
 					"request path contains encoded slashes which are not allowed")
 			}
+
+			// no encoded slashes present: the value is matched in its decoded form
+			value, _ = url.PathUnescape(value)
 		case config.EncodedSlashesOn:
 			value, _ = url.PathUnescape(value)
 		default:
-			unescaped, _ := url.PathUnescape(strings.ReplaceAll(value, "%2F", "$$$escaped-slash$$$"))
-			value = strings.ReplaceAll(unescaped, "$$$escaped-slash$$$", "%2F")
+			value = unescape(value, m.slashHandling)
 		}
 	}
 
